@@ -835,6 +835,14 @@ func runC15(c *Ctx) Result {
 		if dup && o.Kind == 7 {
 			o.Kind = 8 // Interface on duplicate keys has no single defined answer
 		}
+		// a removal is sometimes followed by Pop on the same object (trailing holes are stripped
+		// and the storage shrinks below slots the key index may still mention)
+		if len(graves) > 0 && g.d(10) == 0 {
+			gr := graves[len(graves)-1]
+			if tv := model.at(gr.Path); tv != nil && tv.K == 'o' {
+				o.Path, o.Kind = gr.Path, 15
+			}
+		}
 		// revisit keys that were removed earlier (removal followed by lookup / re-insertion
 		// of the SAME key is where soft removal, the key index and lazy state meet)
 		if len(graves) > 0 && g.d(4) == 0 {
